@@ -233,6 +233,11 @@ def run(ctx):
 
     def gen_world_it(n):
         pts = [families.random_point(rng, f) for _ in range(n)]
+        for p in pts:       # some points just inside an edge of the box (closer than the error of the solver's starting value)
+            if rng.random() < 0.35:
+                k = rng.randrange(2)
+                lo, hi = f.box[k]
+                p[k] = (hi - rng.uniform(0.02, 0.6)) if rng.random() < 0.5 else (lo + rng.uniform(0.02, 0.6))
         ra, dec = w(np.array([p[0] for p in pts]), np.array([p[1] for p in pts]))
         ra, dec = np.atleast_1d(ra).astype(float), np.atleast_1d(dec).astype(float)
         if n >= 3:
